@@ -1,5 +1,6 @@
 import MwVerif.Driver.Common
 import MwVerif.Model.Qs
+import MwVerif.Model.Status
 
 /-! Line-protocol driver for `Model/Qs.lean` (C16–C19). One op per line, reply =
 `<outputs> | <canonical snapshot>`; `reset` starts a new history. -/
@@ -110,6 +111,17 @@ harness to cross-check that the executable predicates agree with what it observe
 def invOk (s : St) : Bool :=
   (List.range s.jobs.length).all fun j => s.done j || s.loc j == 1
 
+open MwVerif.Status in
+def showStatus : Status → String
+  | .failed e => s!"failed:{showErr e}"
+  | .finished f => s!"finished:url={showOptNat f.url},size={showOptNat f.size},sfn={showOptNat f.sfn},empty={if f.sfnEmpty then 1 else 0}"
+  | .progress .dataFetched => "progress:datafetched"
+  | .progress (.dict kv) => "progress:dict:" ++ ",".intercalate (kv.map fun e => s!"{e.1}:{e.2}")
+
+open MwVerif.Status in
+def qinfoSnap (s : St) (id : JobId) : Option Snap :=
+  ((dictGet s.id2job id).bind s.job?).map fun x => ⟨x.done, x.error, x.result, x.info⟩
+
 partial def loop (h : IO.FS.Stream) (out : IO.FS.Stream) (s : St) : IO Unit := do
   let line ← h.getLine
   if line.isEmpty then
@@ -119,6 +131,14 @@ partial def loop (h : IO.FS.Stream) (out : IO.FS.Stream) (s : St) : IO Unit := d
   if l = "reset" then
     out.putStrLn "reset"
     loop h out init
+  else if l.startsWith "status " then
+    match (l.splitOn " ").filter (· ≠ "") with
+    | [_, rid, zid] =>
+      out.putStrLn (showStatus (MwVerif.Status.renderStatus (qinfoSnap s (parseId rid)) (qinfoSnap s (parseId zid))))
+      loop h out s
+    | _ =>
+      out.putStrLn "bad-op"
+      loop h out s
   else
     match parseOp l with
     | none =>
